@@ -17,13 +17,17 @@
 
 package netpoll
 
-import "sync/atomic"
+import (
+	"sync/atomic"
+	"syscall"
+)
 
 // Handlers are installed by the verification harness (in-package test files);
 // all logic lives there. A nil handler makes the hook a no-op.
 var (
 	verifPointHandler atomic.Value // func(id int, obj interface{}, arg int)
 	verifFDHandler    atomic.Value // func(kind int, owner interface{}, fd int)
+	verifFaultHandler atomic.Value // func(site, fd int) syscall.Errno
 )
 
 func verifPoint(id int, obj interface{}, arg int) {
@@ -36,4 +40,11 @@ func verifFD(kind int, owner interface{}, fd int) {
 	if h, _ := verifFDHandler.Load().(func(int, interface{}, int)); h != nil {
 		h(kind, owner, fd)
 	}
+}
+
+func verifFault(site, fd int) syscall.Errno {
+	if h, _ := verifFaultHandler.Load().(func(int, int) syscall.Errno); h != nil {
+		return h(site, fd)
+	}
+	return 0
 }
